@@ -84,7 +84,7 @@ def band_event(ev, s, o, g, fn_name, a, alpha, sampler, method, np_seed):
     identity = sampler == "identity"
     e = ev("band", h=1, fn=fn_name, args=a, alpha=alpha, identity=identity, sampler=sampler, method=method,
            out={"cm": [], "fnr": [], "fpr": [], "fnr_ci": [], "fpr_ci": [], "u": [], "w": [],
-                "shape_ok": True, "nan_free": True, "views_ci": {}})
+                "shape_ok": True, "nan_free": True, "views_ci": {}, "inputs_untouched": True})
     try:
         kw = {}
         if a["fnr"]:
@@ -94,12 +94,22 @@ def band_event(ev, s, o, g, fn_name, a, alpha, sampler, method, np_seed):
         if a["thr"]:
             from .c15 import conc_thr
             kw["thresholds"] = np.array([conc_thr(g, t) for t in a["thr"]])
-        kw["nb_points"] = None if a["nb"] == -1 else a["nb"]
+        kw["nb_points"] = None if a["nb"] == -1 else [a["nb"], np.int64(a["nb"])][e["id"] % 2]
+        # the caller's own arrays: possibly read-only (np.broadcast_to, memmaps, pandas copy-on-write give
+        # such arrays), never modified by the call
+        keep = {k_: np.array(v_, copy=True) for k_, v_ in kw.items() if isinstance(v_, np.ndarray)}
+        if e["id"] % 3 == 0:
+            for v_ in kw.values():
+                if isinstance(v_, np.ndarray):
+                    v_.flags.writeable = False
         cfg = BootstrapConfig(nb_samples=6, bootstrap_method=method,
                               sampling_method=(lambda x: x) if identity else sampler,
                               stratified_sampling="by_label" if sampler == "replacement" and np_seed % 2 else None)
         np.random.seed(np_seed)
+        pos_before, neg_before = np.array(s.pos, copy=True), np.array(s.neg, copy=True)
         c = fns[fn_name](s, alpha=alpha / 1000.0, config=cfg, **kw)
+        e["out"]["inputs_untouched"] = bool(all(np.array_equal(kw[k_], v_) for k_, v_ in keep.items())
+                                            and np.array_equal(s.pos, pos_before) and np.array_equal(s.neg, neg_before))
         th = np.asarray(c.thresholds, dtype=float)
         n = len(th)
         m = np.asarray(s.cm(th).matrix)
